@@ -276,7 +276,7 @@ def observe(case: dict) -> dict:
     want = case.get("want") or {}
     obs = {"valid": False, "nmsgs": 0, "valid_err": "", "elements": [], "elements_ok": False,
            "np": {"has": False}, "np_plain": {"has": False}, "steps": [], "fn": [], "jac": [], "sens": [],
-           "twin": {"has": False}}
+           "twin": {"has": False}, "spy": []}
     try:
         b = Built(case)
     except BaseException as e:  # noqa: BLE001
@@ -379,6 +379,9 @@ def observe(case: dict) -> dict:
                 obs["sens"].append({"engine": "numpy", "slot": list(slot), "changed": ch})
         except BaseException as e:  # noqa: BLE001
             obs["steps"].append({"engine": "numpy[sens]", "ok": False, "err": errstr(e)})
+    # ---- C13 on this topology: a recording engine is SELECTED, another engine is passed EXPLICITLY
+    if want.get("spy", False):
+        obs["spy"] = observe_spy(case, x, u, d, okw, kw)
     # ---- CasADi
     rng = random.Random(hash((case.get("id"), 17)) & 0xFFFFFFF)
     for spec in want.get("fn", []):
@@ -503,6 +506,40 @@ def run_jac(case, sym):
     return rec
 
 
+def observe_spy(case, x, u, d, okw, kw):
+    """for three (selected, explicit) pairs: which primitives the SELECTED engine was asked to compute (must be none),
+    the kinds of all variables and next states, and whether the selection survived"""
+    import liferun
+    from sym_metanet import engines
+    out = []
+    prev = engines.get_current_engine()
+    try:
+        for sel, exp in (("sx", "np"), ("np", "mx"), ("mx", "sx")):
+            rec = {"selected": sel, "explicit": exp, "ok": False, "err": "", "log": [], "kinds": [], "selection_kept": False}
+            spy = liferun.make_spy({"np": np_engine("rand"), "sx": cs_engine("SX"), "mx": cs_engine("MX")}[sel])
+            explicit = {"np": np_engine("rand"), "sx": cs_engine("SX"), "mx": cs_engine("MX")}[exp]
+            engines.use(spy)
+            try:
+                b = Built(case)
+                ic = b.np_init(x, u, d) if exp == "np" else None
+                b.net.step(init_conditions=ic, engine=explicit, **okw, **kw)
+                kinds = set()
+                for table in (b.links, b.origins, b.dests):
+                    for ob in table.values():
+                        for grp in (ob.states, ob.actions, ob.disturbances, ob.next_states):
+                            for v in (grp or {}).values():
+                                kinds.add(liferun.kind_of_value(v))
+                rec.update(ok=True, log=sorted(set(spy.log)), kinds=sorted(kinds),
+                           selection_kept=engines.get_current_engine() is spy)
+            except BaseException as e:  # noqa: BLE001
+                rec["err"] = errstr(e)
+                rec["log"] = sorted(set(spy.log))
+            out.append(rec)
+    finally:
+        engines.use(prev)
+    return out
+
+
 def fn_states_by_name(case, sym, x, u, d):
     """next states of an uncompacted function evaluated by argument NAME, keyed by abstract ids"""
     eng = cs_engine(sym)
@@ -589,7 +626,7 @@ def run_trajectory(case: dict) -> list[dict]:
               "calls": [{"byname": False, "args": [[fr(z) for z in a] for a in args], "outs": [[fr(z) for z in o] for o in outs]}]}
         rec = dict(base, id=f"{case['id']}-t{k}", src="trajectory")
         rec["obs"] = {"valid": True, "nmsgs": 0, "valid_err": "", "elements": els, "elements_ok": True, "np": {"has": False},
-                      "np_plain": {"has": False}, "steps": [], "fn": [fn], "jac": [], "sens": [], "twin": {"has": False}}
+                      "np_plain": {"has": False}, "steps": [], "fn": [fn], "jac": [], "sens": [], "twin": {"has": False}, "spy": []}
         recs.append(rec)
         for n, o in zip(names_out, outs):   # feed back: the result named n+ succeeds the argument named n
             if n.endswith("+") and n[:-1] in cur:
